@@ -49,6 +49,13 @@ def cases(seed, tier):
         patch = ''
         if product == 'OpenSSH':
             patch = rng.choice(['', 'p1', 'p2', 'p1 Ubuntu-3ubuntu0.1', ' FreeBSD-20240806'])
+            rp = gen.case_rng(seed, ID, i, 'patch')
+            if rp.random() < 0.2:
+                # patch levels as they are found in the wild: several digits, vendor text glued to the level (HPN builds)
+                patch = rp.choice(['p1-hpn14v14', 'p2-hpn14v14', 'p1-hpn13v11', 'p10', 'p1-gssapi', 'p1+x509-13.2'])
+            if rp.random() < 0.3:
+                # the very release in which some algorithm appeared ("at least the version in which the database says it appeared")
+                version = rp.choice(['7.2', '6.5', '5.7', '6.2', '7.3', '8.5', '9.0', '8.2', '6.7', '9.9'])
             banner = 'SSH-2.0-OpenSSH_%s%s' % (version, patch)
         elif product == 'Dropbear SSH':
             banner = 'SSH-2.0-dropbear_%s' % version
